@@ -162,6 +162,7 @@ def register_xsi_cache(db):
                     call_ensures=["result == uf('is_binding_model', 'bool', clazz)"]))
     assume_method(db, "Builder", "build_class_meta", returns="u:XmlMeta", pure=True, raises=["XmlContextError", "NameError", "TypeError"])
     assume_method(db, "XsiCache", "clear", mutates=True)
+    assume_method(db, "XsiCache", "values", returns="u:Any")
     db.opaque_ops[("XsiCache", "getitem")] = lambda ex, st, v, idx: iter([(st, Opaque("PyList"))])  # a defaultdict(list)
 
     SYS = db.const_overrides[("sys", "modules")]
@@ -188,9 +189,14 @@ def register_xsi_cache(db):
                   "uf('module_count', 'int', uf('world_now', 'u:World')) > 0"],
         ensures=[("index-reflects-the-classes-loaded-now",
                   "called('XmlContext.get_subclasses') == 1 or "
-                  "uf('loaded_classes', 'seq[u:type]', built_from) == uf('loaded_classes', 'seq[u:type]', uf('world_now', 'u:World'))")],
+                  "uf('loaded_classes', 'seq[u:type]', built_from) == uf('loaded_classes', 'seq[u:type]', uf('world_now', 'u:World'))"),
+                 # a rebuild starts from an empty index: entries (and their order) from earlier states of the interpreter
+                 # must not survive, otherwise a used context and a fresh one order the classes of a qname differently
+                 ("a-rebuild-starts-from-an-empty-index", "implies(called('XmlContext.get_subclasses') == 1, called('XsiCache.clear') == 1)")],
         raises={"XmlContextError": True, "NameError": True, "TypeError": True},
-        loops=[Loop(invariants=[], header="self.get_subclasses(object)")],
+        loops=[Loop(invariants=[], header="self.get_subclasses(object)",
+                    step=[("every-binding-model-with-a-target-name-is-indexed",
+                           "implies(uf('is_binding_model', 'bool', clazz), called('Builder.build_class_meta') == 1)")])],
         modifies=["self.sys_modules"],
         properties=["C14"], replay="replay_xsi_cache", ghost_pre=modules_now,
         note="history independence of XmlContext.find_type / find_types / find_type_by_fields; "
